@@ -64,7 +64,7 @@ Definition cmd_solve (v : val) : val :=
   VL [enc_outcome out; enc_sched (sched (core w))].
 
 (** 3 — [BaseSolver.__call__] with a scripted clock.
-    [I; fs; rule; chooser; draws; t0; t1] -> [outcome; [elapsed]?; solved_by] *)
+    [I; fs; rule; chooser; draws; t0; t1] -> [outcome; [elapsed]?; solved_by; class name; default filters; rows] *)
 Definition cmd_call (v : val) : val :=
   let I := dec_instance (vnth v 0) in
   let fs := dec_fs (vnth v 1) in
@@ -77,7 +77,8 @@ Definition cmd_call (v : val) : val :=
       match md with Some m => vlist VI (solved_by m) | None => VL [] end;
       vlist VI solver_class_name; vlist vnat (map (fun f => match f with
          | FDominated => 0 | FNonImmediateMachines => 1 | FNonIdleMachines => 2 | FNonImmediateOps => 3 end)%nat
-         default_filters)].
+         default_filters);
+      enc_sched (sched (core w))].
 
 (** 4 — a session over the dispatcher with the scorer's observers.
     Events:
